@@ -178,3 +178,9 @@ package api
 //@   loop 1 invariant forall i int :: 0 <= i && i <= idx ==> o.Options[i] == m.Options[i]
 //@   loop 1 invariant o.Destination == m.Destination && o.Type == m.Type && o.Source == m.Source
 //@   loop 1 invariant propagationQuery != nil ==> ((forall i int :: 0 <= i && i <= idx ==> !isProp(m.Options[i])) ==> deref(propagationQuery) == old(deref(propagationQuery))) && (!(forall i int :: 0 <= i && i <= idx ==> !isProp(m.Options[i])) ==> isProp(deref(propagationQuery)))
+
+// loading a WebAssembly plugin is outside the model (wazero runtime)
+//@ func PluginPlugin.Load
+//@   props C18
+//@   trusted
+//@   ensures true
